@@ -392,6 +392,10 @@ NoTornCache == \A r \in Readers : Uniform(cacheRec[r])
 \* C03a: a later call never returns an older record than an earlier call did
 Monotone == \A r \in Readers : Returned(r) => ret[r][1] >= prevIdx[r]
 
+\* linearizability of the snapshot (what E2E.tla's abstract segment assumes): a record accepted by the second
+\* generation load is, at that very step, the latest completed publication (sequentially consistent memory)
+FreshIsLatest == [][\A r \in Readers : (rpc[r] = "g2" /\ rpc'[r] = "done" /\ retKind'[r] = "fresh") => ret'[r] = Full(pubDone)]_vars
+
 \* C03b (sequentially consistent memory): a call during which no update was in flight returns the
 \* latest completed publication; documented exception: cached generation coincides with the live one
 CatchUp == \A r \in Readers : (Returned(r) /\ quiet[r]) =>
